@@ -6,8 +6,9 @@ open Evermint.GenCode
 
 theorem fact_translated_all :
     translated = ["utils_add", "utils_mul", "utils_EthTxGasPrice", "utils_EthTxFee", "utils_EthTxEffectiveGasPrice",
-      "utils_EthTxEffectiveFee", "utils_CheckIfAccountIsSuitableForDestroyingAt", "duallane_validateSingleFee",
-      "duallane_getMinGasPricesAllowed", "duallane_getTxPriority", "keeper_StateTransition_gasUsed",
+      "utils_EthTxEffectiveFee", "utils_CheckIfAccountIsSuitableForDestroyingAt", "utils_HasSingleEthereumMessage",
+      "utils_IsEthereumTx", "duallane_validateSingleFee", "duallane_getMinGasPricesAllowed", "duallane_getTxPriority",
+      "duallane_EthereumTxFeeChecker", "duallane_CosmosTxFeeChecker", "keeper_StateTransition_gasUsed",
       "keeper_StateTransition_buyGas", "keeper_StateTransition_preCheck", "keeper_StateTransition_refundGas",
       "types_BinSearch", "keeper_erc20CustomPrecompiledContractRwTransferFrom_spendAllowance",
       "types_BlockGasLimit", "misc_CalcBaseFee", "core_IntrinsicGas", "keeper_Keeper_CalculateBaseFee"] := by
@@ -15,6 +16,7 @@ theorem fact_translated_all :
 
 theorem fact_uninterpreted :
     uninterpreted = ["utils_CheckIfAccountIsSuitableForDestroyingAt: account==nil||reflect.ValueOf(account).IsNil()",
+      "duallane_CosmosTxFeeChecker: call checkTxFeeWithValidatorMinGasPrices(ctx,feeTx)",
       "keeper_StateTransition_preCheck: codeHash!=common.BytesToHash(evmtypes.EmptyCodeHash)",
       "keeper_StateTransition_preCheck: codeHash!=(*ast.CompositeLit)"] := by
   decide +kernel
